@@ -1,121 +1,199 @@
 """C16 — simulated devices are independent of each other and restart cleanly.
 
-Pairs of real `DummyDev` instances (default/default, default/custom, custom/custom — separately built lists —
+Two to four real `DummyDev` instances (default / custom definitions in any combination — separately built lists —
 and, for the heap model only, two devices given the *same* list object) under the virtual-time runtime of
-props/C14.py: a random history drives instance 0, instance 1 is observed (state dump, channel-info requests,
-stream frames) during and after it; start / stop cycles with deterministic channels streaming.
-impl = transcript, compared with the model of two instances over one heap (`lean/NxsModel/Dummy.lean`).
-oracle (independent of the model): what instance 1 lets a client observe must be exactly what it lets it observe
-when instance 0 is never touched; after stop(); start() every deterministic channel starts its sequence again.
+props/C14.py.  Every instance gets its own op list — a random history (requests in every form, junk, stream steps,
+reads, start / stop cycles), an observation sequence (state dump with call counters, common info, every channel's
+info, a stream of all its channels) or a restart sequence (stream deterministic channels, stop, start, stream
+again) — and the lists are INTERLEAVED op by op (or run one after the other: drive 0 then observe 1, drive 1 then
+observe 0).
+impl = transcript, compared with the model of the instances over one heap (`lean/NxsModel/Dummy.lean`).
+oracle (independent of the model): for EVERY instance, what it lets a client observe in the interleaved history must
+be exactly what it lets it observe when only its own ops are run (the other instances created but never touched);
+after stop(); start() every deterministic channel starts its sequence again — including user-defined functions of
+the call index `DeviceChannel.data_get` passes to `IDeviceChannelFunc.get(cntr)` (finding F19), and the triangle
+wave restarted while falling (batches of more than 1000 rounds).
+
+Not covered (accepted exclusions, see props/C14.py): values of the random generators (process-global `random`:
+compared by structure only, so independence is not claimed for their VALUES); what survives a restart is what
+`stop()` leaves: one queued item of each queue is dropped, other stale frames / queued writes, enable flags, dividers
+and the stream-started flag stay.
 """
 from common import Prop, hexs
 from props import C14 as L
 
 
 def observe_ops(rng, d, k, deep=True):
-    """ops that only look at instance k: dump, every channel's info, and (deep) a short stream of everything"""
+    """ops that only look at instance k: dump, common info, every channel's info, and (deep) a short stream of everything"""
     n = len(d["chans"])
-    ops = [f"{k}d"]
+    ops = [f"{k}d", f"{k}w{hexs(L.req(2, []))}", f"{k}R", f"{k}r"]
     for c in range(n):
         if rng.random() < 0.6 or n <= 3:
             ops += [f"{k}w{hexs(L.req(3, [c]))}", f"{k}R", f"{k}r"]
     if deep:
         ops += [f"{k}w{hexs(L.req(6, [2, 0, 1]))}", f"{k}R", f"{k}r", f"{k}w{hexs(L.req(5, [1]))}", f"{k}R", f"{k}r",
-                f"{k}S", f"{k}r", f"{k}S", f"{k}r", f"{k}w{hexs(L.req(5, [0]))}", f"{k}R", f"{k}r", f"{k}r", f"{k}d"]
+                f"{k}S", f"{k}r", f"{k}S", f"{k}r", f"{k}w{hexs(L.req(5, [0]))}", f"{k}R", f"{k}r", f"{k}r", f"{k}d",
+                f"{k}w{hexs(L.req(2, []))}", f"{k}R", f"{k}r"]
     return ops
 
 
 def restart_ops(rng, d, k):
-    """stream deterministic channels, stop, start, stream again"""
+    """stream deterministic channels, stop, start, stream again; sometimes the channels are disabled during the restart and
+    enabled again afterwards (a restart resets the generators of disabled channels as well)"""
     ops = [f"{k}w{hexs(L.req(6, [2, 0, 1]))}", f"{k}R", f"{k}r", f"{k}w{hexs(L.req(5, [1]))}", f"{k}R", f"{k}r"]
     ops += [f"{k}S", f"{k}r"] * rng.randrange(1, 4)
-    ops += [f"{k}z", f"{k}r", f"{k}r", f"{k}a", f"{k}S", f"{k}r", f"{k}S", f"{k}r"]
+    if rng.random() < 0.35:
+        ops += [f"{k}w{hexs(L.req(6, [2, 0, 0]))}", f"{k}R", f"{k}r", f"{k}z", f"{k}r", f"{k}r", f"{k}a",
+                f"{k}w{hexs(L.req(6, [2, 0, 1]))}", f"{k}R", f"{k}r", f"{k}S", f"{k}r", f"{k}S", f"{k}r", f"{k}d"]
+    else:
+        ops += [f"{k}z", f"{k}r", f"{k}r", f"{k}a", f"{k}S", f"{k}r", f"{k}S", f"{k}r", f"{k}d"]
     return ops
 
 
-def det_custom(rng):
+DET_COMBOS = [(10, 1, 0, 1), (10, 1, 0, 2), (10, 3, 0, 5), (3, 3, 1, 7), (1, 0, 16, 8), (5, 1, 0, 2), (11, 1, 0, 1), (7, 3, 1, 7),
+              (18, 64, 0, 6), (11, 4, 0, 10), (10, 1, 0, 0), (0, 0, 0, None), (7, 1, 0, 11), (10, 1, 0, 12), (11, 2, 0, 11),
+              (6, 1, 0, 12), (10, 3, 0, 9)]
+
+
+def det_custom(rng, snums=(1, 2, 3, 1, 2, 3, 5, 40)):
     """a custom device whose channels are deterministic and stream without raising"""
-    combos = [(10, 1, 0, 1), (10, 1, 0, 2), (10, 3, 0, 5), (3, 3, 1, 7), (1, 0, 16, 8), (5, 1, 0, 2), (11, 1, 0, 1), (7, 3, 1, 7),
-              (18, 64, 0, 6), (11, 4, 0, 10), (10, 1, 0, 0), (0, 0, 0, None)]
     chans = []
     for _ in range(rng.choice([1, 2, 3, 5])):
-        ty, vdim, mlen, g = rng.choice(combos)
+        ty, vdim, mlen, g = rng.choice(DET_COMBOS)
         chans.append(dict(type=ty, vdim=vdim, mlen=mlen, gen=g, en=int(rng.random() < 0.2), div=rng.choice([0, 0, 9]),
                           name=rng.choice(L.NAMES)))
-    return dict(kind="C", flags=rng.choice([3, 3, 1, 2, 0]), rxp=rng.choice([0, 0, 8]), snum=rng.choice([1, 2, 3]), chans=chans)
+    return dict(kind="C", flags=rng.choice([3, 3, 1, 2, 0]), rxp=rng.choice([0, 0, 8, 5]), snum=rng.choice(snums), chans=chans)
+
+
+def gen_defs(rng, kind):
+    """kind: a string over D (default set), C (separately built custom list), A (the list object of instance 0)"""
+    defs = []
+    for ch in kind:
+        if ch == "D":
+            defs.append(L.gen_default(rng))
+        elif ch == "C":
+            defs.append(det_custom(rng))
+        else:   # the same list object as instance 0
+            a = defs[0]
+            defs.append(dict(kind="A", flags=rng.choice([3, 1]), rxp=a["rxp"], snum=rng.choice([1, 2]), alias=0, chans=a["chans"]))
+    return defs
 
 
 def gen_pair(rng, kind):
-    a = L.gen_default(rng) if kind[0] == "D" else det_custom(rng)
-    if kind[1] == "D":
-        b = L.gen_default(rng)
-    elif kind[1] == "C":
-        b = det_custom(rng)
-    else:   # the same list object as instance 0
-        b = dict(kind="A", flags=rng.choice([3, 1]), rxp=a["rxp"], snum=rng.choice([1, 2]), alias=0, chans=a["chans"])
-    return [a, b]
+    return gen_defs(rng, kind)
 
 
-def gen_pair_history(rng, defs, length):
-    a, b = defs
-    ops = []
-    if rng.random() < 0.7:
-        ops.append("1a")
-    ops += L.gen_history(rng, a, k=0, length=length, junk=0.1)
-    if rng.random() < 0.5:
-        ops.insert(rng.randrange(1, len(ops)), "1d")
-    if rng.random() < 0.5:
-        ops += restart_ops(rng, a, 0)
-    if "1a" not in ops:
-        ops.append("1a")
-    ops += observe_ops(rng, b, 1, deep=rng.random() < 0.7)
+def interleave(rng, lists):
+    """a random merge of the op lists (the order inside each list is kept)"""
+    lists = [list(x) for x in lists if x]
+    out = []
+    while lists:
+        w = [len(x) for x in lists]
+        i = rng.choices(range(len(lists)), weights=w)[0]
+        # runs of a few ops of one instance, so that request / receive-step / read groups often stay together
+        for _ in range(rng.choice([1, 1, 2, 3, 6])):
+            if lists[i]:
+                out.append(lists[i].pop(0))
+        lists = [x for x in lists if x]
+    return out
+
+
+def inst_ops(rng, d, k, role, length):
+    if role == "drive":
+        ops = L.gen_history(rng, d, k=k, length=length, junk=0.1)
+        if rng.random() < 0.5:
+            ops += restart_ops(rng, d, k)
+        return ops
+    if role == "restart":
+        return [f"{k}a"] + restart_ops(rng, d, k) + (observe_ops(rng, d, k, deep=False) if rng.random() < 0.5 else [])
+    ops = [f"{k}a"] if rng.random() < 0.85 else []
+    ops += observe_ops(rng, d, k, deep=rng.random() < 0.7)
+    if "a" not in [o[1] for o in ops]:
+        ops.insert(rng.randrange(1, len(ops)), f"{k}a")
     if rng.random() < 0.4:
-        ops += restart_ops(rng, b, 1)
+        ops += restart_ops(rng, d, k)
     return ops
 
 
-def b_only(ops):
-    return [o for o in ops if o[0] == "1"]
+def gen_multi_history(rng, defs, length):
+    """every instance gets a role; the op lists are interleaved, or run one after the other in a random order"""
+    n = len(defs)
+    driven = rng.randrange(n)
+    roles = []
+    for k in range(n):
+        if k == driven:
+            roles.append("drive")
+        else:
+            roles.append(rng.choice(["observe", "observe", "restart", "drive"]))
+    lists = [inst_ops(rng, defs[k], k, roles[k], length if roles[k] == "drive" else None) for k in range(n)]
+    mode = rng.random()
+    if mode < 0.6:
+        ops = interleave(rng, lists)
+    else:
+        order = list(range(n))
+        rng.shuffle(order)          # drive 0 then observe 1, or drive 1 then observe 0, ...
+        ops = [o for k in order for o in lists[k]]
+        if rng.random() < 0.5:      # a look at a later instance in the middle of an earlier one's history
+            k = order[-1]
+            ops.insert(rng.randrange(1, len(ops)), f"{k}d")
+    return ops
+
+
+def gen_pair_history(rng, defs, length):
+    return gen_multi_history(rng, defs, length)
+
+
+def only(ops, k):
+    return [o for o in ops if o[0] == str(k)]
+
+
+KINDS = ["DD", "DD", "DC", "CD", "CC", "CC", "DDD", "CA", "DCD", "CDC", "DD", "CCCC", "CDA"]
+TAGS = {"DD": "default-default", "DC": "default-custom", "CD": "custom-default", "CC": "custom-custom", "CA": "shared-list",
+        "DDD": "three-default", "DCD": "three-mixed", "CDC": "three-mixed", "CCCC": "four-custom", "CDA": "three-shared"}
 
 
 class C16(Prop):
     id = "C16"
     lean_module = "NxsModel.Props.C16"
-    rule = ("pairs of real DummyDev instances (default/default, default/custom, custom/default, custom/custom with separately "
-            "built lists; plus two devices over the same list object for the heap model) under the virtual-time runtime: a random "
-            "history (requests in every form, junk, stream steps, reads, start / stop cycles, 5..45 ops) on instance 0, "
-            "instance 1 observed during and after it (state dump, channel info of its channels, a stream of all its channels), "
-            "restart sequences with deterministic channels; every token compared with the model of two instances over one heap; "
-            "oracle: the observations of instance 1 equal those of the same ops with instance 0 never touched, and the "
-            "deterministic channels begin their sequence again after stop/start; distinct = distinct line; non-trivial = line "
-            "with at least one stream frame")
+    rule = ("two to four real DummyDev instances (default / custom in any combination with separately built lists; plus devices over "
+            "the same list object for the heap model) under the virtual-time runtime; every instance has its own op list — a "
+            "random history (requests in every form, junk, stream steps, reads, start / stop cycles, 5..45 ops), an observation "
+            "sequence (state dump with call counters, common info, channel info of its channels, a stream of all its channels) "
+            "or a restart sequence with deterministic channels — and the lists are interleaved op by op or run one after the "
+            "other in a random order; targeted: restarts after batches of 300..10001 rounds that cross the periods of every "
+            "default generator (triangle wave restarted while falling), user-defined functions of the call index (F19); every "
+            "token compared with the model of the instances over one heap; oracle: the observations of EVERY instance equal "
+            "those of its own ops run alone, and the deterministic channels begin their sequence again after stop/start; "
+            "distinct = distinct line; non-trivial = line with at least one stream frame")
     assumptions = ["virtual-time runtime (harness/vsim.py) preserves queue / lock / event / thread semantics",
                    "thread iterations are atomic (method granularity)",
-                   "values of the random / sine generators are compared by structure only"]
+                   "values of the random generators are compared by structure only (process-global `random`: independence is not claimed "
+                   "for their values); the sine generator by value in oracle runs only",
+                   "stop() drops one queued item of each queue; other stale frames / queued writes, enable flags, dividers and the "
+                   "stream-started flag survive a restart (modelled)"]
 
     def cases(self, rng, tier):
         T = tier == "thorough"
-        kinds = ["DD", "DD", "DC", "CD", "CC", "CC", "DD", "CA"]
-        for it in range(1600 if T else 320):
-            kind = kinds[it % len(kinds)]
-            defs = gen_pair(rng, kind)
-            ops = gen_pair_history(rng, defs, rng.randrange(5, 45 if T else 30))
-            yield L.line_of(defs, ops), {"DD": "default-default", "DC": "default-custom", "CD": "custom-default",
-                                         "CC": "custom-custom", "CA": "shared-list"}[kind]
-        for line in self.targeted():
+        for it in range(900 if T else 260):
+            kind = KINDS[it % len(KINDS)]
+            defs = gen_defs(rng, kind)
+            ops = gen_multi_history(rng, defs, rng.randrange(5, 45 if T else 30))
+            yield L.line_of(defs, ops), TAGS[kind]
+        for line in self.targeted(full=T):
             yield line, "targeted"
 
-    def targeted(self):
+    def targeted(self, full=True):
         en1 = hexs(L.req(6, [0, 1, 1]))
         div = hexs(L.req(7, [2, 0, 9]))
         start = hexs(L.req(5, [1]))
         ch1 = hexs(L.req(3, [1]))
+        cmn = hexs(L.req(2, []))
         enall = hexs(L.req(6, [2, 0, 1]))
         out = []
         # enable / divider / start / streaming on device 0, device 1 looked at afterwards
         out.append("dummy run D,3,16,2+D,3,16,2 " + ";".join(
-            ["0a", "1a", f"0w{en1}", "0R", "0r", f"0w{div}", "0R", "0r", f"0w{start}", "0R", "0r", "0S", "0r", "1d", f"1w{ch1}", "1R", "1r",
-             f"1w{enall}", "1R", "1r", f"1w{start}", "1R", "1r", "1S", "1r", "0d", "1d"]))
+            ["0a", "1a", f"0w{en1}", "0R", "0r", f"0w{div}", "0R", "0r", f"0w{start}", "0R", "0r", "0S", "0r", "1d", f"1w{cmn}", "1R", "1r",
+             f"1w{ch1}", "1R", "1r", f"1w{enall}", "1R", "1r", f"1w{start}", "1R", "1r", "1S", "1r", "0d", "1d"]))
         # restart of the default device: channels 1, 2, 6, 7 begin again
         out.append("dummy run D,3,16,3 " + ";".join(
             ["0a", f"0w{enall}", "0R", "0r", f"0w{start}", "0R", "0r", "0S", "0r", "0S", "0r", "0z", "0r", "0a", "0S", "0r", "0S", "0r", "0d"]))
@@ -123,6 +201,28 @@ class C16(Prop):
         out.append("dummy run D,3,0,1+D,3,0,1 " + ";".join(
             ["0a", f"0w{enall}", "0R", "0r", f"0w{start}", "0R", "0r", "0S", "0r", "0S", "0r", "1a", "1d", f"1w{enall}", "1R", "1r",
              f"1w{start}", "1R", "1r", "1S", "1r", "0S", "0r", "1d"]))
+        # drive 1, then observe 0 (the other direction), three instances, the third never started
+        out.append("dummy run D,3,16,2+D,1,0,3+D,3,8,1 " + ";".join(
+            ["1a", f"1w{enall}", "1R", "1r", f"1w{div}", "1R", "1r", f"1w{start}", "1R", "1r", "1S", "1r", "1S", "0a", "0d", f"0w{cmn}", "0R", "0r",
+             f"0w{ch1}", "0R", "0r", f"0w{enall}", "0R", "0r", f"0w{start}", "0R", "0r", "0S", "0r", "1S", "1r", "2d", "0d", "1d"]))
+        # interleaved: 0 streams the triangle wave in batches of 2100 rounds and is restarted while falling; 1 streams by twos
+        en12 = hexs(L.en_bulk(11, {1, 2}))
+        out.append("dummy run D,3,16,2100+D,3,16,2 " + ";".join(
+            ["0a", "1a", f"0w{en12}", f"1w{en12}", "0R", "1R", "0r", "1r", f"0w{start}", f"1w{start}", "1R", "0R", "1r", "0r", "0S", "1S", "1r",
+             "0r", "1S", "0z", "1r", "0r", "0a", "1S", "0S", "1r", "0r", "0d", "1d"]))
+        # channels disabled during the restart are reset as well (default device and call-index functions)
+        dis = hexs(L.req(6, [2, 0, 0]))
+        mid = [f"0w{dis}", "0R", "0r", "0z", "0r", "0r", "0a", f"0w{enall}", "0R", "0r", "0S", "0r", "0S", "0r", "0d"]
+        out.append("dummy run D,3,16,3 " + ";".join(["0a", f"0w{enall}", "0R", "0r", f"0w{start}", "0R", "0r", "0S", "0r", "0S", "0r"] + mid))
+        out.append("dummy run C,3,0,2,7.1.0.11.0.0.69:10.1.0.12.0.0.73:11.1.0.2.0.0.74 " + ";".join(
+            ["0a", f"0w{enall}", "0R", "0r", f"0w{start}", "0R", "0r", "0S", "0r", "0S", "0r"] + mid))
+        # F19: the call counter restarts; the wrap-arounds of every default generator with a restart inside
+        out.append(L.f19_line())
+        out += [l for l, _ in L.sparse_lines()[:2]]
+        # (the C14 check runs all of the wrap-around histories in both tiers; here the quick tier keeps the one with the
+        # call-index functions — the restart of the falling triangle wave is in the interleaved pair above)
+        w = [l for l, _ in L.wrap_lines()]
+        out += w if full else [w[4]]
         return out
 
     def impl(self, line):
@@ -145,20 +245,29 @@ class C16(Prop):
         except Exception as e:  # noqa: BLE001
             return {"key": "device-hangs", "what": f"the history does not run to completion: {type(e).__name__}: {e}",
                     "expected": "every op returns", "observed": type(e).__name__}
-        shared = any(d["kind"] == "A" for d in defs)
-        if len(defs) > 1 and not shared:
-            bops = b_only(ops)
-            try:
-                bout, _ = L.run_history(defs, bops)
-            except Exception as e:  # noqa: BLE001
-                return {"key": "device-hangs", "what": f"instance 1 alone does not run: {e}", "expected": "-", "observed": "-"}
-            got = [t for o, t in zip(ops, out) if o[0] == "1"]
-            for idx, (o, x, y) in enumerate(zip(bops, got, bout)):
-                if x != y:
-                    return {"key": "instances-share-state",
-                            "what": f"what instance 1 lets a client observe depends on what was done to instance 0 (its op {idx} `{o[:30]}`)",
-                            "expected": f"{y[:160]}  (instance 0 never touched)", "observed": x[:160], "ops_on_1": bops}
-        # restart: deterministic channels begin their sequence again (and the rest of C14 on both instances)
+        # instances that were given the same list object share it by construction: no independence claimed between them
+        shared = set()
+        for k, d in enumerate(defs):
+            if d["kind"] == "A":
+                shared |= {k, d["alias"]}
+        touched = sorted({int(o[0]) for o in ops})
+        if len(touched) > 1:
+            for k in touched:
+                if k in shared:
+                    continue
+                kops = only(ops, k)
+                try:
+                    kout, _ = L.run_history(defs, kops)
+                except Exception as e:  # noqa: BLE001
+                    return {"key": "device-hangs", "what": f"instance {k} alone does not run: {e}", "expected": "-", "observed": "-"}
+                got = [t for o, t in zip(ops, out) if o[0] == str(k)]
+                for idx, (o, x, y) in enumerate(zip(kops, got, kout)):
+                    if x != y:
+                        return {"key": "instances-share-state",
+                                "what": f"what instance {k} lets a client observe depends on what was done to the other instance(s) "
+                                        f"(its op {idx} `{o[:30]}`)",
+                                "expected": f"{y[:160]}  (other instances never touched)", "observed": x[:160], "ops_on_it": kops}
+        # restart: deterministic channels begin their sequence again (and the rest of C14 on every instance)
         v = L.judge(defs, ops, out, info)
         if v and v["key"] in ("generator-order", "stream-order"):
             v = dict(v)
@@ -173,17 +282,17 @@ class C16(Prop):
     def search_cases(self, rng):
         out = [(l, "targeted") for l in self.targeted()]
         for it in range(60):
-            defs = gen_pair(rng, ["DD", "DC", "CC"][it % 3])
-            out.append((L.line_of(defs, gen_pair_history(rng, defs, rng.randrange(5, 30))), "search"))
+            defs = gen_defs(rng, ["DD", "DC", "CC", "DDD", "CDC"][it % 5])
+            out.append((L.line_of(defs, gen_multi_history(rng, defs, rng.randrange(5, 30))), "search"))
         return out
 
     def extra_checks(self, rng, tier, ev):
         viol = []
         n = 0
-        lines = list(self.targeted())
-        for it in range(300 if tier == "thorough" else 60):
-            defs = gen_pair(rng, ["DD", "DC", "CD", "CC"][it % 4])
-            lines.append(L.line_of(defs, gen_pair_history(rng, defs, rng.randrange(5, 30))))
+        lines = list(self.targeted(full=tier == "thorough"))
+        for it in range(80 if tier == "thorough" else 24):
+            defs = gen_defs(rng, ["DD", "DC", "CD", "CC", "DDD", "DCD"][it % 6])
+            lines.append(L.line_of(defs, gen_multi_history(rng, defs, rng.randrange(5, 30))))
         for line in lines:
             v = self.oracle(line)
             n += 1
